@@ -36,6 +36,8 @@ def run(ctx):
     # ill-formed programs with several errors on one element (lists of up to four attributes in front of an operation, C04's
     # family): the same diagnostics, byte for byte, in every run
     ctx.tlc("MC_Rules", "MC_Rules_attrlists_four", replay="repro", coverage=False, label="MC_Rules_attrlists(reruns)")
+    # enums of 3-4 enumerators with small values in any order (several values used twice: several errors on one enum)
+    ctx.tlc("MC_Rules", "MC_Rules_enumorder_quick", replay="repro", coverage=False, label="MC_Rules_enumorder(reruns)")
     # files that re-open one module, each with a doc link spelled alike that designates a member of its own container: what a
     # comment is bound to is part of the file's compiled content (the digests cover doc comments and their link targets)
     ctx.tlc("MC_LinkFiles", "MC_LinkFiles" if ctx.quick else "MC_LinkFiles_thorough", replay="repro", coverage=False)
